@@ -12,6 +12,7 @@
 #include <vector>
 #include <unistd.h>
 #include <sys/wait.h>
+#include <sys/resource.h>
 #include "TFEL/Config/GetInstallPath.hxx"
 #include "TFEL/Utilities/CxxTokenizer.hxx"
 #include "MFront/MFrontUtilities.hxx"
@@ -177,13 +178,17 @@ int main(int argc, char** argv) {
         // the printed registry cut after every byte count, each through the real tokenizer + reader in a child process:
         // E = exception (what analyseTargetsFile logs), O = parsed and equal to the full registry, L = parsed but
         // something was lost, C = the reader crashed (signal)
-        is >> a;
+        size_t step = 1;
+        is >> a >> step;
         const auto full = print(regs.at(a));
         std::string status;
-        for (size_t k = 0; k <= full.size(); ++k) {
+        for (size_t k = 0; k <= full.size(); k += ((k + step > full.size() && k != full.size()) ? full.size() - k : step)) {
           std::fflush(stdout);
           const auto pid = fork();
           if (pid == 0) {
+            struct rlimit nocore = {0, 0};
+            setrlimit(RLIMIT_CORE, &nocore);
+            alarm(5);
             int code = 0;
             try {
               const auto t = parse(full.substr(0, k));
